@@ -319,12 +319,25 @@ def gen_program(rnd, nfiles=None, opts=None, base=None, tries=30, charset="bk", 
             files.append(f)
             ctxs.append(ctx)
         if opts.get("include") and rnd.random() < 0.7:
-            inc, ictx = gen_file(rnd, 8, "inc8.mac", dict(opts, exports=False, include=False, dotskip=False), nstmt=rnd.randrange(1, 6))
+            sib = opts.get("include_siblings", True) and rnd.random() < 0.35
+            inc, ictx = gen_file(rnd, 8, "inc8.mac", dict(opts, exports=bool(sib), include=False, dotskip=False, extern_all=False),
+                                 shared_exports=tuple(exports) if rnd.random() < 0.5 else (), nstmt=rnd.randrange(1, 6))
             aux["inc8.mac"] = inc
-            host = rnd.choice(files)
+            hi = rnd.randrange(len(files))
+            host = files[hi]
             pos = rnd.randrange(len(host.stmts) + 1)
             host.stmts[pos:pos] = [apm.simple(".even"), apm.include("inc8.mac"), apm.simple(".even")]
-            if opts.get("include_twice", True) and rnd.random() < 0.4:
+            if sib:
+                # a sibling include (same nesting depth, later in link order) that refers to what the first one exports: branches,
+                # relative operands and differences across two included files
+                inc9, _c9 = gen_file(rnd, 9, "inc9.mac", dict(opts, exports=False, include=False, dotskip=False, extern_all=False),
+                                     shared_exports=tuple(ictx.exports), nstmt=rnd.randrange(2, 7))
+                aux["inc9.mac"] = inc9
+                hj = rnd.randrange(hi, len(files))
+                h2 = files[hj]
+                p2 = rnd.randrange(pos + 3, len(h2.stmts) + 1) if hj == hi else rnd.randrange(len(h2.stmts) + 1)
+                h2.stmts[p2:p2] = [apm.simple(".even"), apm.include("inc9.mac"), apm.simple(".even")]
+            elif opts.get("include_twice", True) and rnd.random() < 0.4:
                 # the same file a second time, elsewhere: every inclusion is a compilation of its own
                 host = rnd.choice(files)
                 pos = rnd.randrange(len(host.stmts) + 1)
